@@ -5,6 +5,7 @@ import hir as H
 import mir as M
 import rulelib as L
 import charpred as CP
+import sym
 
 CRATES = ["identity_iota_core", "identity_did"]
 ID = "identity_iota_core::did::iota_did::IotaDID"
@@ -204,13 +205,22 @@ def run(F, R, tier):
             ok = kinds == {"network!=default", "no-network-segment"} and keeps and arg_ok
             r2.site("normalize: keep unless network == DEFAULT_NETWORK (then method id := tag): %s" % ok, iff["sp"])
         r2.require(ok, (ID + "::normalize", "shape"), "normalize does not drop exactly the default network segment")
-    h = F.hir(ID + "::denormalized_components")
-    if r2.anchor(h, ID + "::denormalized_components"):
-        fns = {f.rsplit("::", 1)[-1] for f in H.called_fns(H.root(h))}
-        lits = H.literals(H.root(h))
-        ok = {"find", "split_at"} <= fns and ":" in lits and ("def", ID + "::DEFAULT_NETWORK") in {("def", x.get("res", {}).get("def")) for x in H.walk(H.root(h)) if x.get("k") == "path"}
-        r2.site("denormalized_components: split at the first ':' else (DEFAULT_NETWORK, input): %s" % ok)
-        r2.require(ok and "rfind" not in fns, ("denormalized_components", "shape"), "components are not split at the first ':' with DEFAULT_NETWORK as the implicit network")
+    dfn = ID + "::denormalized_components"
+    if r2.anchor(F.hir(dfn), dfn):
+        # a pure composition of std string primitives: fold it on the input shapes that distinguish "split at the first ':'" from
+        # every neighbouring behaviour (last ':', no split, keeping the ':'), with DEFAULT_NETWORK for inputs without ':'
+        ev_ = sym.Evaluator(F)
+        cases = {"net:tag": ("net", "tag"), "a:b:c": ("a", "b:c"), "tag": ("iota", "tag"), ":x": ("", "x"), "x:": ("x", ""), "": ("iota", "")}
+        got = {}
+        for inp, want in cases.items():
+            try:
+                ps = ev_.explore(dfn, args=[inp])
+                got[inp] = ps[0].ret if len(ps) == 1 and ps[0].complete else ("?", ps[0].note if ps else None)
+            except (sym.Abort, sym.TooManyPaths) as e:
+                got[inp] = ("?", str(e))
+        ok = all(got[k_] == v_ for k_, v_ in cases.items())
+        r2.site("denormalized_components folds to %s" % {k_: got[k_] for k_ in cases})
+        r2.require(ok, ("denormalized_components", "shape"), "components are not split at the first ':' with DEFAULT_NETWORK as the implicit network: %s" % {k_: got[k_] for k_ in cases if got[k_] != cases[k_]})
     h = F.hir(ID + "::new")
     if r2.anchor(h, ID + "::new"):
         env = H.Env(h)
